@@ -2,6 +2,10 @@
 // Session_c07*.cfg) on the real SessionManager + ClientRegistry + ServerAuthHandler assembled by
 // srvkit, logs the full projection of the registries after every operation and lets the
 // property-level judge (spec/SessionTraceReg.tla) check the C07 statement on each of them.
+// Histories of spec/SessionReg.tla hold a kick (KickBegin/KickEnd: the kick goroutine is parked in the write of
+// the kick command) or a heartbeat-timeout sweep (SweepBegin/SweepEnd: the server's sweep goroutine is parked in the
+// offline notification of its callback) between the locked registry section and the I/O that follows, with logins,
+// closes and kicks inside the window.
 // A second mode runs two or three connections' logins concurrently (goroutines released together
 // at the moment their success response is written, i.e. right before handleHandshake's registry
 // section) and judges the quiescent projection after every round.
@@ -12,11 +16,14 @@ import (
 	"fmt"
 	"reflect"
 	"runtime"
+	"runtime/debug"
 	"sort"
+	"strings"
 	"sync"
 	"sync/atomic"
 	"time"
 
+	"tunnox-core/internal/packet"
 	"tunnox-core/internal/security"
 	"tunnox-core/verifharness/fw"
 	"tunnox-core/verifharness/srvkit"
@@ -47,6 +54,7 @@ type opT struct {
 	New  string   `json:"new"`
 	Keep []string `json:"keep"`
 	Out  string   `json:"out"`
+	How  string   `json:"how,omitempty"` // Close: "command" = the client announces its disconnect (JsonCommand Disconnect)
 	Exp  *expT    `json:"exp"`
 	To   string   `json:"to,omitempty"`     // Cloud: "down" | "up"
 	NB   bool     `json:"nb,omitempty"`     // concurrent mode: this Login does not wait at the rendezvous
@@ -71,7 +79,7 @@ func keys(m map[string]string) []string {
 
 func hasTick(ops []opT) bool {
 	for _, o := range ops {
-		if o.Op == "Tick" {
+		if o.Op == "Tick" || o.Op == "SweepBegin" {
 			return true
 		}
 	}
@@ -134,7 +142,48 @@ type runner struct {
 	timed     bool
 	overrun   bool
 	cloudDown bool
-	kick      *pendingKick // a KickOldConnection whose I/O part is held back (KickBegin .. KickEnd)
+	kick      *pendingKick  // a KickOldConnection whose I/O part is held back (KickBegin .. KickEnd)
+	sweep     *pendingSweep // a heartbeat-timeout sweep held between its registry section and its callback's CloseConnection
+}
+
+// pendingSweep: the server's own sweep goroutine (startConnectionCleanup -> cleanupStaleConnections ->
+// ClientRegistry.CleanupStale) has taken the stale connection out of the registry and is parked in the
+// offline notification of its callback (a slow cloud-control store). While it is parked no other sweep runs.
+type pendingSweep struct {
+	conn    string
+	release chan struct{}
+	resumed chan struct{}
+}
+
+// finishSweep lets the held sweep go on and waits until its callback has closed the connection.
+func (r *runner) finishSweep() bool {
+	k := r.sweep
+	if k == nil {
+		return true
+	}
+	r.sweep = nil
+	close(k.release)
+	select {
+	case <-k.resumed:
+	case <-time.After(10 * time.Second):
+		return false
+	}
+	tc := r.w.Conn(k.conn)
+	for grace := time.Now().Add(2 * time.Second); time.Now().Before(grace); time.Sleep(hbEvery / 10) {
+		if v := r.w.S.View(tc); !v.InSession && !v.InControl && v.Closed {
+			break // anything left after the grace period is left to the judge
+		}
+	}
+	return true
+}
+
+// beatAll: every open registered connection except skip sends a heartbeat.
+func (r *runner) beatAll(skip string) {
+	for _, n := range r.w.ConnNames {
+		if tc := r.w.Conn(n); tc != nil && n != skip && !tc.Closed() && r.w.S.View(tc).InControl {
+			_ = tc.Heartbeat()
+		}
+	}
 }
 
 // pendingKick: the goroutine running SessionManager.KickOldControlConnection is parked in the write
@@ -161,6 +210,9 @@ func (r *runner) finishKick() bool {
 }
 
 func (r *runner) seg() {
+	if r.sweep != nil {
+		return // the only sweep goroutine is parked: nobody can go stale unnoticed until it is released
+	}
 	if r.timed && time.Since(r.segStart) > segBudget {
 		r.overrun = true
 	}
@@ -179,11 +231,22 @@ func (r *runner) prev(c *srvkit.Conn, id int64) string {
 	}
 }
 
+func (r *runner) safeStep(o opT) (ev fw.Event, why string, px any) {
+	defer func() {
+		if x := recover(); x != nil {
+			px = x
+		}
+	}()
+	ev, why = r.step(o)
+	return
+}
+
 // step executes one operation; returns the event (nil = not realisable on this server state).
 func (r *runner) step(o opT) (fw.Event, string) {
 	w := r.w
 	ev := fw.Event{"ev": "Op", "op": o.Op, "shape": "-"}
 	var c *srvkit.Conn
+	cmdClosed := false
 	if o.C != "" && o.Op != "Accept" {
 		c = w.Conn(o.C)
 		if c == nil {
@@ -261,6 +324,28 @@ func (r *runner) step(o opT) (fw.Event, string) {
 		if r.cloudDown {
 			ev["shape"] = "cloud-down"
 		}
+		if o.How == "command" {
+			// the client announces that it is leaving; the socket stays open on its side
+			if _, _, err := c.Send(&packet.TransferPacket{PacketType: packet.JsonCommand,
+				CommandPacket: &packet.CommandPacket{CommandType: packet.Disconnect, CommandBody: "{}"}}); err != nil {
+				return nil, err.Error()
+			}
+			if v := w.S.View(c); v.InSession && v.InControl && !v.Closed {
+				// the server took no notice: the connection is simply still open, nothing is demanded of it;
+				// the peer closes the socket as in the plain Close
+				ev["shape"] = "command-ignored"
+			} else {
+				// the server closed the connection by itself: the result is observed before the peer closes
+				// the socket and before any read loop gets a chance to tidy up
+				ev["shape"] = "command"
+				if r.cloudDown {
+					ev["shape"] = "command:cloud-down"
+				}
+				ev["closed"] = o.C
+				cmdClosed = true
+				break
+			}
+		}
 		c.Disconnect()
 		ev["closed"] = o.C
 	case "Kick":
@@ -334,6 +419,60 @@ func (r *runner) step(o opT) (fw.Event, string) {
 		if !r.finishKick() {
 			return nil, "the held-back kick did not return after its transport was released"
 		}
+	case "SweepBegin":
+		// o.C falls silent, everybody else registered keeps heartbeating: the server's own sweep goroutine
+		// finds exactly o.C stale, takes it out of the registry (locked section of CleanupStale) and is held
+		// in the offline notification of its callback, before CloseConnection
+		r.seg()
+		if !w.S.View(c).Authd {
+			return nil, "sweep window on a connection that is not authenticated (model and server disagree)"
+		}
+		k := &pendingSweep{conn: o.C, release: make(chan struct{}), resumed: make(chan struct{})}
+		parked := make(chan string, 1)
+		w.S.HoldNextDisconnect(func(clientID int64, connID string) {
+			parked <- connID
+			<-k.release
+			close(k.resumed)
+		})
+		last := time.Now()
+		deadline := time.Now().Add(tickLength + 2*time.Second)
+		got := ""
+		for got == "" && time.Now().Before(deadline) {
+			r.beatAll(o.C)
+			if time.Since(last) > hbTimeout/2 {
+				r.overrun = true // a kept connection may have gone stale
+			}
+			last = time.Now()
+			select {
+			case got = <-parked:
+			case <-time.After(hbEvery):
+			}
+		}
+		if got == "" {
+			w.S.HoldNextDisconnect(nil)
+			select {
+			case got = <-parked: // it fired while we gave up
+			default:
+				r.overrun = true // the sweep did not come inside the timing margin: nothing of this trace is judged
+				return ev, ""
+			}
+		}
+		r.sweep = k
+		if got != c.ID {
+			r.overrun = true // the sweep reached another connection first: not the modelled schedule
+			return ev, ""
+		}
+	case "SweepEnd":
+		if r.sweep == nil {
+			return nil, "no sweep outstanding (model and server disagree)"
+		}
+		ev["kicked"] = r.sweep.conn
+		r.beatAll(r.sweep.conn) // the window may have lasted longer than a timeout: everybody is fresh when the sweeper resumes
+		if !r.finishSweep() {
+			return nil, "the held sweep did not resume after its notification was released"
+		}
+		r.beatAll("")
+		r.segStart = time.Now()
 	case "Cloud":
 		// outage of the cloud-control runtime-state calls (fault point of close / sweep / heartbeat)
 		r.cloudDown = o.To == "down"
@@ -418,6 +557,15 @@ func (r *runner) step(o opT) (fw.Event, string) {
 	if r.kick != nil {
 		ev["kicking"] = r.kick.conn // the eviction of this connection is in progress, not completed
 	}
+	if r.sweep != nil {
+		ev["kicking"] = r.sweep.conn // likewise: swept out of the registry, its callback has not closed it yet
+	}
+	if cmdClosed {
+		ev["proj"] = w.Projection()
+		c.T.Close() // now the peer's end
+		w.S.Reap()
+		return ev, ""
+	}
 	if o.Op == "Tick" {
 		// The heartbeat-timeout sweep evicts connections whose peer is silent; it must finish the
 		// eviction itself (cleanupStaleConnections calls CloseConnection for every stale entry):
@@ -455,6 +603,7 @@ func driveSeq(ops []opT) *fw.Trace {
 	defer s.Close()
 	r := &runner{w: srvkit.NewWorld(s, keys(ops[0].Exp.Auth), keys(ops[0].Exp.Idx)), timed: timed, segStart: time.Now()}
 	defer r.finishKick()
+	defer r.finishSweep()
 	if len(ops[0].Exp.Sess) > 0 && ops[0].Op != "Accept" { // configurations with PreAccept = TRUE
 		for _, n := range r.w.ConnNames {
 			if _, err := r.w.Accept(n); err != nil {
@@ -465,7 +614,20 @@ func driveSeq(ops []opT) *fw.Trace {
 	t := &fw.Trace{Status: fw.Realised}
 	mism := 0
 	for i, o := range ops {
-		ev, why := r.step(o)
+		ev, why, px := r.safeStep(o)
+		if px != nil {
+			if timed {
+				// the server's own sweep goroutine runs beside the driver in these behaviours; tunnox-core
+				// panics when it closes a stream that an operation is writing to (known finding of C16,
+				// StreamProcessor teardown) - which only happens when a connection went stale although the
+				// model keeps it alive, i.e. after a timing overrun: nothing of this trace is judged
+				codePanics.Add(1)
+				msg := fmt.Sprint(px)
+				firstPanic.CompareAndSwap(nil, &msg)
+				return &fw.Trace{Status: fw.Inconclusive, Note: "tunnox-core panicked beside the sweep goroutine (timing margin overrun): " + msg}
+			}
+			return &fw.Trace{Status: fw.DriverError, Note: fmt.Sprintf("panic in step %d (%s): %v\n%s", i+1, o.Op, px, debug.Stack())}
+		}
 		if ev == nil {
 			// the real server is in a state from which the model's next operation cannot be
 			// performed (it diverged from the model earlier): judge the prefix
@@ -764,8 +926,32 @@ func selfTest(env *fw.Env, acc []*fw.Trace) []*fw.Trace {
 	var out []*fw.Trace
 	id := 9000000
 	kinds := 0
+	// an eviction in two parts (kick / sweep window) that has ended without closing the evicted transport
+	windows := 0
 	for _, t := range acc {
-		if len(out) >= 24 {
+		if windows >= 6 {
+			break
+		}
+		for i, e := range t.Events {
+			k, _ := e["kicked"].(string)
+			p, _ := e["proj"].(map[string]any)
+			if k == "" || p == nil {
+				continue
+			}
+			cv, _ := p["conns"].(map[string]any)[k].(map[string]any)
+			if cv == nil || cv["tcl"] != true || cv["reg"] == true {
+				continue
+			}
+			id++
+			c := clone(t, id)
+			c.Events[i]["proj"].(map[string]any)["conns"].(map[string]any)[k].(map[string]any)["tcl"] = false
+			out = append(out, c)
+			windows++
+			break
+		}
+	}
+	for _, t := range acc {
+		if len(out) >= 30 {
 			break
 		}
 		for i := len(t.Events) - 1; i >= 0; i-- {
@@ -830,7 +1016,7 @@ func main() {
 			strict := "C07Inv C07One"
 			if env.Tier != "thorough" {
 				return withTimeout(to, []fw.TLCJob{
-					{Name: "registry ops depth 8 (strict invariants)", Module: "Session", Cfg: "Session_c07.cfg",
+					{Name: "registry ops depth 8 (strict invariants)", Module: "SessionReg", Cfg: "SessionReg_c07.cfg",
 						Consts: map[string]string{"FIXES": fixes, "LEVEL": "8", "EMIT": `"no"`, "INV": strict}},
 					{Name: "registry ops at the control-connection cap depth 8", Module: "Session", Cfg: "Session_cap.cfg",
 						Consts: map[string]string{"FIXES": fixes, "LEVEL": "8", "EMIT": `"no"`}},
@@ -838,10 +1024,13 @@ func main() {
 						Consts: map[string]string{"FIXES": fixes, "FAULTS": "{}", "CLIENT": "Client2", "VIEW": "VIEW view", "LEVEL": "99", "EMIT": `"no"`}},
 					{Name: "interleaved critical sections depth 8 (strict invariants)", Module: "Session", Cfg: "Session_split.cfg",
 						Consts: map[string]string{"FIXES": fixes, "FAULTS": "{}", "LEVEL": "8", "INV": strict}},
+					{Name: "sweep in two parts (locked section, then callback) with kicks, and sweep under a cloud outage, one client, complete", Module: "SessionReg", Cfg: "SessionReg_sweep.cfg",
+						Consts: map[string]string{"FIXES": fixes, "FAULTS": "{}", "CLIENT": "Client1", "VIEW": "VIEW viewX", "LEVEL": "99", "EMIT": `"no"`,
+							"OPS": `{"FirstLogin", "Login", "Close", "Kick", "SweepBegin", "TickX", "Cloud"}`}},
 				})
 			}
 			return withTimeout(to, []fw.TLCJob{ // LEVEL 99 = complete state graph
-				{Name: "registry ops depth 10 (strict invariants)", Module: "Session", Cfg: "Session_c07.cfg",
+				{Name: "registry ops depth 10 (strict invariants)", Module: "SessionReg", Cfg: "SessionReg_c07.cfg",
 					Consts: map[string]string{"FIXES": fixes, "LEVEL": "10", "EMIT": `"no"`, "INV": strict}},
 				{Name: "registry ops at the control-connection cap, complete", Module: "Session", Cfg: "Session_cap.cfg",
 					Consts: map[string]string{"FIXES": fixes, "LEVEL": "99", "EMIT": `"no"`}},
@@ -849,6 +1038,9 @@ func main() {
 					Consts: map[string]string{"FIXES": fixes, "FAULTS": "{}", "CLIENT": "Client2", "VIEW": "VIEW view", "LEVEL": "99", "EMIT": `"no"`}},
 				{Name: "interleaved critical sections, complete (strict invariants)", Module: "Session", Cfg: "Session_split.cfg",
 					Consts: map[string]string{"FIXES": fixes, "FAULTS": "{}", "LEVEL": "99", "INV": strict}},
+				{Name: "sweep in two parts (locked section, then callback) with kicks, and sweep under a cloud outage, two clients, complete", Module: "SessionReg", Cfg: "SessionReg_sweep.cfg",
+					Consts: map[string]string{"FIXES": fixes, "FAULTS": "{}", "CLIENT": "Client2", "VIEW": "VIEW viewX", "LEVEL": "99", "EMIT": `"no"`,
+						"OPS": `{"FirstLogin", "Login", "Close", "Kick", "SweepBegin", "TickX", "Cloud"}`}},
 				{Name: "tree before patches C07-1/C07-2, depth 8 (invariants masked by the named deviations)", Module: "Session", Cfg: "Session_c07.cfg",
 					Consts: map[string]string{"FIXES": "{}", "LEVEL": "8", "EMIT": `"no"`, "INV": "C07InvMasked C07OneMasked"}},
 				{Name: "interleaved critical sections before C07-2, depth 14 (login race masked)", Module: "Session", Cfg: "Session_split.cfg",
@@ -856,27 +1048,39 @@ func main() {
 			})
 		},
 		GenJobs: func(env *fw.Env) []fw.TLCJob {
-			lv, lvCap, lvKick, cfg, sims, depth := "6", "6", "5", "Session_c07.cfg", "num=300", 14
+			lv, lvCap, lvKick, lvSweep, cfg, sims, depth := "6", "6", "5", "6", "SessionReg_c07.cfg", "num=300", 14
 			if env.Tier == "thorough" {
-				lv, lvCap, lvKick, cfg, sims, depth = "7", "8", "6", "Session_c07t.cfg", "num=3000", 20
+				lv, lvCap, lvKick, lvSweep, cfg, sims, depth = "7", "8", "6", "7", "SessionReg_c07t.cfg", "num=3000", 20
 			}
-			return withTimeout(40*time.Minute, []fw.TLCJob{
-				{Name: "gen:transitions", Module: "Session", Cfg: cfg, Workers: 8,
+			sweepOps := `{"FirstLogin", "Login", "Close", "CloseCmd", "SweepBegin"}`
+			jobs := []fw.TLCJob{
+				{Name: "gen:transitions", Module: "SessionReg", Cfg: cfg, Workers: 8,
 					Consts: map[string]string{"FIXES": fixes, "LEVEL": lv, "EMIT": `"all"`, "INV": "C07Inv C07One"}},
 				{Name: "gen:cap", Module: "Session", Cfg: "Session_cap.cfg", Workers: 8,
 					Consts: map[string]string{"FIXES": fixes, "LEVEL": lvCap, "EMIT": `"all"`}},
-				// all operation histories to the depth bound (no VIEW: path-dependent faults), one client
-				{Name: "gen:kick", Module: "Session", Cfg: "Session_kick.cfg", Workers: 8,
-					Consts: map[string]string{"FIXES": fixes, "FAULTS": "{}", "CLIENT": "Client1", "VIEW": "", "LEVEL": lvKick, "EMIT": `"last"`}},
-				{Name: "gen:simulate", Module: "Session", Cfg: cfg, Workers: 4, Simulate: sims, Depth: depth + 1, Seed: env.Seed,
+				// all operation histories to the depth bound (no VIEW: path-dependent faults), one client, one
+				// representative per renaming of the pre-accepted connections (EMIT "canon"): the whole set is driven
+				{Name: "gen:kick", Module: "SessionReg", Cfg: "SessionReg_kick.cfg", Workers: 8,
+					Consts: map[string]string{"FIXES": fixes, "FAULTS": "{}", "CLIENT": "Client1", "VIEW": "", "LEVEL": lvKick, "EMIT": `"canon"`}},
+				{Name: "gen:sweep", Module: "SessionReg", Cfg: "SessionReg_sweep.cfg", Workers: 8,
+					Consts: map[string]string{"FIXES": fixes, "FAULTS": "{}", "CLIENT": "Client1", "VIEW": "", "LEVEL": lvSweep, "EMIT": `"canon"`, "OPS": sweepOps}},
+				// (base module: TLC's simulator picks one action instance per step there; the conjunction in SessionReg!NextX
+				// would make it enumerate and print every successor of the last step)
+				{Name: "gen:simulate", Module: "Session", Cfg: strings.Replace(cfg, "SessionReg_", "Session_", 1), Workers: 4, Simulate: sims, Depth: depth + 1, Seed: env.Seed,
 					Consts: map[string]string{"FIXES": fixes, "LEVEL": fmt.Sprint(depth), "EMIT": `"last"`, "INV": "C07Inv C07One"}},
-			})
+			}
+			if env.Tier == "thorough" { // kicks inside the sweep window as well
+				jobs = append(jobs, fw.TLCJob{Name: "gen:sweepkick", Module: "SessionReg", Cfg: "SessionReg_sweep.cfg", Workers: 8,
+					Consts: map[string]string{"FIXES": fixes, "FAULTS": "{}", "CLIENT": "Client1", "VIEW": "", "LEVEL": "5", "EMIT": `"canon"`,
+						"OPS": `{"FirstLogin", "Login", "Close", "Kick", "SweepBegin"}`}})
+			}
+			return withTimeout(40*time.Minute, jobs)
 		},
 		MaxBehSrc: func(env *fw.Env, src string) int {
 			if env.Tier == "thorough" {
-				return map[string]int{"gen:transitions": 30000, "gen:cap": 12000, "gen:kick": 15000, "gen:simulate": 8000}[src]
+				return map[string]int{"gen:transitions": 30000, "gen:cap": 12000, "gen:kick": 15000, "gen:simulate": 8000, "gen:sweep": 6000, "gen:sweepkick": 6000}[src]
 			}
-			return map[string]int{"gen:transitions": 2600, "gen:cap": 900, "gen:kick": 2000, "gen:simulate": 600}[src]
+			return map[string]int{"gen:transitions": 2600, "gen:cap": 900, "gen:kick": 2000, "gen:simulate": 600, "gen:sweep": 1200}[src]
 		},
 		ExtraBeh:    parBehaviours,
 		Drive:       drive,
@@ -888,13 +1092,14 @@ func main() {
 			fmt.Printf("[binding] %d of %d sequential behaviours left the model's predicted state at some step (%d steps compared)\n",
 				bindingMismatch.Load(), len(ts), bindingSteps.Load())
 			if n := codePanics.Load(); n > 0 {
-				fmt.Printf("[note] %d concurrent rounds dropped because tunnox-core panicked in a driver goroutine (not a C07 observation), first: %s\n", n, *firstPanic.Load())
+				fmt.Printf("[note] %d concurrent rounds / timed behaviours dropped because tunnox-core panicked in a driver goroutine (not a C07 observation), first: %s\n", n, *firstPanic.Load())
 			}
 			return nil
 		},
 		NonTrivial: func(t *fw.Trace) bool { return len(t.Events) >= 3 },
 		Rule: "one behaviour per transition (state, operation) of the Session registry state graph to the depth bound, plus random deep histories, " +
 			"each replayed on the real SessionManager with the full registry projection judged after every operation; " +
+			"all canonical operation histories to the depth bound with a kick or a heartbeat-timeout sweep held between its locked section and its I/O (SessionReg.tla); " +
 			"concurrent login/close/kick rounds judged at quiescence; non-trivial = at least 3 operations",
 		Assumptions: []string{
 			"the protocol adapter's read loop is emulated: HandlePacket per packet, CloseConnection when the transport is closed (adapter.cleanupConnection)",
@@ -903,6 +1108,9 @@ func main() {
 			"concurrent rounds racing a handshake with the removal of the same connection use ClientRegistry.CleanupStale(0, CloseConnection) for the sweep at a chosen instant",
 			"a kick is held between its locked section and its I/O by a one-shot hook in the old peer's fake transport (KickBegin/KickEnd); a cloud-control outage fails DisconnectClient(IfMatch)/EnsureClientOnline of the session layer's adapter",
 			"UnregisterForTunnel is driven through ClientRegistry.Unregister directly (what handleTunnelOpen calls), not through a full tunnel open",
+			"the sweep window is realised on the server's own sweep goroutine: it is parked in the offline notification of its callback (DisconnectClientIfMatch of the session layer's cloud-control adapter, one-shot hold) for one stale authenticated connection; other connections are kept alive by heartbeats",
+			"Close with how=command is the client's Disconnect command (handleDisconnectCommand -> CloseConnection), observed before the peer closes its socket; a command the server ignores demands nothing",
+			"a panic of tunnox-core beside the sweep goroutine in a timed behaviour (stream closed under a writer after a timing overrun; StreamProcessor teardown, known finding of C16) discards the behaviour as inconclusive",
 		},
 		TrustedBase: []string{"TLC", "spec/SessionTraceReg.tla as the reading of the C07 statement", "srvkit fake transport and name mapping"},
 	})
